@@ -208,10 +208,10 @@ CHECKS["C14"] = {
     "extra_parts": [{"package": "seq", "bin": "c14s", "flavor": "seq", "shards": {"quick": 4, "thorough": 16}}],
     "distinct_from_extra": "distinct_schedules",
     "level": "exploration",
-    "technique": "runtime monitoring under controlled scheduling: the real sentinel-core with its std::sync primitives, atomics and lazy statics switched to the shuttle runtime (--cfg sentinel_verif_sched) is run under randomised and PCT(1..3) schedulers; a ledger oracle is evaluated after join in every execution; plus barrier-released real OS-thread stress with the same oracle",
+    "technique": "runtime monitoring under controlled scheduling: the real sentinel-core with its std::sync primitives, atomics and lazy statics switched to the shuttle runtime (--cfg sentinel_verif_sched) is run under every schedule with <= k preemptions (CHESS-style enumeration, k = 1..3) and under randomised and PCT(1..3) schedulers; a ledger oracle is evaluated after join in every execution; plus barrier-released real OS-thread stress with the same oracle",
     "rule": "scheduled half: 88 scenarios = {2,3 threads} x {1,2 build/exit pairs each} x {brand-new, existing resource} x {inbound, outbound} x {clock fixed inside a bucket, a fourth thread steps the clock by 300 ms or 600 ms (across a bucket edge) at a scheduler-chosen point} x {all exited, last entry of every thread left open}; each scenario explored with 5000 (quick) / 100000 (thorough) executions split over a random scheduler and PCT depth 1-3; evaluations = executions, distinct_nontrivial = number of DISTINCT schedules (hash of the sequence of scheduling decisions) summed over scenarios - every execution has >=2 contending threads. Stress half: 12k (quick) / 200k (thorough) trials per shard of 2-4 OS threads released by a barrier on a fresh resource",
     "level_text": "After join in every execution: all entries were accounted on the one node registered for the resource (Arc identity), in-flight equals the un-exited entries, pass/complete/rt totals equal the per-thread sums when the clock is fixed inside one bucket and never exceed them when the clock steps; same on the global inbound node; sampled schedules, not exhaustive (shuttle has no preemption-bounded exhaustive mode that terminates here: ~400 scheduling points per execution).",
-    "level_note": "Schedules are sampled (random + PCT); the 'exhaustive up to a preemption bound' part of the quantifier is not delivered. shuttle's atomics are sequentially consistent (weaker orderings are not modelled).",
+    "level_note": "Every schedule with <= 1 preemption is executed for every scenario (<= 2 for the smallest fixed-clock ones; thorough: 2-3), see coverage.preemption_bounded_*; beyond the bound schedules are sampled (random + PCT). shuttle's atomics are sequentially consistent (weaker orderings are not modelled).",
     "design_ref": "DESIGN.md §5 C14",
     "assumptions": ["runtime monitoring: the verdict covers only the executions this run produced", "hook H6: crate::vsync switches Mutex/RwLock/Once/atomics/lazy_static/yield_now to shuttle under --cfg sentinel_verif_sched; Arc stays std", "virtual clock (std atomics, invisible to the scheduler)"],
 }
@@ -221,7 +221,7 @@ CHECKS["C15"] = {
     "shards": {"quick": 16, "thorough": 16},
     "distinct_from_extra": "distinct_schedules",
     "level": "exploration",
-    "technique": "runtime monitoring under controlled scheduling (shuttle runtime switched in under --cfg sentinel_verif_sched): deadlock = every unfinished task blocked (scheduler verdict), panic in any task, and a sequential health probe of all five managers after join, over randomised and PCT(1..3) schedules of pairs/triples of manager calls running next to entries",
+    "technique": "runtime monitoring under controlled scheduling (shuttle runtime switched in under --cfg sentinel_verif_sched): deadlock = every unfinished task blocked (scheduler verdict), panic in any task, and a sequential health probe of all five managers after join, over every schedule with <= 1 preemption (quick; 2 capped in thorough) and randomised and PCT(1..3) schedules of pairs/triples of manager calls running next to entries",
     "rule": "scenarios = (a) for each of the 5 families all 28 unordered pairs of {load_rules A, load_rules B, load_rules_of_resource, append_rule, clear_rules, clear_rules_of_resource, get_*} on two threads plus a thread building/exiting two entries on the affected resource, rules preloaded; (b) the 28 circuit-breaker pairs again with a plain and with a 'querying' StateChangeListener (every callback calls get_rules, get_rules_of_resource, get_breakers_of_resource, flow::get_rules) while the entry thread completes with errors so that the breaker opens, probes and re-opens; (c) 20 cross-family pairs; (d) probes rejected by a flow rule (exit-hook rollback) racing with breaker removal, with and without listener; (e) 6 three-thread / two-step scenarios. 800 (quick) / 20000 (thorough) executions per scenario split over random and PCT depth 1-3; evaluations = executions, distinct_nontrivial = distinct schedules (hash of scheduling decisions) summed over scenarios",
     "level_text": "No sampled schedule of any scenario deadlocks, panics (incl. unwrap on a poisoned lock) or leaves a manager that does not accept and report a freshly loaded rule; sampled, not exhaustive.",
     "level_note": "Custom generators that call back into their own manager are not exercised (the generator runs under the manager's non-reentrant mutexes by design; see DESIGN §5 C15). The real-OS-thread confirmation run with gdb stack sampling described in the design was not built; the scheduler's verdict is conclusive on its own.",
@@ -232,12 +232,13 @@ CHECKS["C15"] = {
 CHECKS["C16"] = {
     "package": "sched", "bin": "c16", "flavor": "sched", "replay": "rerun",
     "shards": {"quick": 16, "thorough": 16},
+    "extra_parts": [{"package": "seq", "bin": "c16s", "flavor": "seq", "shards": {"quick": 8, "thorough": 16}}],
     "distinct_from_extra": "distinct_schedules",
     "level": "exploration",
-    "technique": "runtime monitoring under controlled scheduling (shuttle): per-thread client-boundary results and the StateChangeListener log of every sampled schedule are checked by a trace oracle (path of the state machine, one winner per transition, one admission per Half-Open phase, no admission while Open before the retry time)",
+    "technique": "runtime monitoring under controlled scheduling (shuttle; sampled random/PCT schedules plus CHESS-style enumeration of every schedule with <= 2 preemptions) and on gated real OS threads: per-thread client-boundary results and the StateChangeListener log of every execution are checked by a trace oracle (path of the state machine, one winner per transition, one admission per Half-Open phase, no admission while Open before the retry time)",
     "rule": "scenarios (x 3 breaker strategies) = {2,3 in-flight entries completing with a failure at once (each alone opens the breaker)} + {2,3 requests arriving exactly at / 1 ms before the retry time of an Open breaker} + {2,3 requests after the retry time racing with a stale failing completion} + {probe completion ok/fail x stale completion ok/fail x 1,2 new requests, all racing, from Half-Open}; 3000 (quick) / 60000 (thorough) executions per scenario split over random and PCT depth 1-3; evaluations = executions, distinct_nontrivial = distinct schedules (hash of scheduling decisions) summed over scenarios",
     "level_text": "In every sampled schedule the listener log is a path of the machine that ends in current_state(); exactly one Closed->Open for simultaneous opening completions; exactly one request admitted and one Open->HalfOpen for simultaneous requests after the retry time, none 1 ms before it; after a failed completion re-opened the breaker nothing is admitted at the same instant; admissions while not Closed equal the number of Open->HalfOpen events; sampled, not exhaustive.",
-    "level_note": "The clock is fixed during the concurrent phase, so 'before the retry timeout' is decidable exactly. Schedules are sampled (random + PCT), the preemption-bounded exhaustive part of the quantifier is not delivered.",
+    "level_note": "The clock is fixed during the concurrent phase, so 'before the retry timeout' is decidable exactly. Preemption-bounded enumeration is complete through bound 1 for all but the largest scenarios in the quick tier (bound 2 for the smallest), see coverage.preemption_bounded_*; beyond that schedules are sampled (random + PCT) and real threads are stressed (same scenarios and oracles, harness/shared/c16_scn.rs).",
     "design_ref": "DESIGN.md §5 C16",
     "assumptions": ["runtime monitoring: the verdict covers only the executions this run produced", "hook H6 (vsync facade), H7; virtual clock"],
 }
